@@ -969,6 +969,26 @@ class Interp:
                     else ast.Name(id=v.id, ctx=ast.Store())
                 self.assign_target(store, VSeq(newv.segs, "bytearray"), fr)
                 return NONE
+        if (not fr.spec and isinstance(e.func, ast.Attribute) and e.func.attr == "extend" and len(e.args) == 1
+                and isinstance(e.args[0], ast.GeneratorExp) and len(e.args[0].generators) == 1):
+            # list.extend(generator): the generator is consumed lazily, element by element, against the growing
+            # list (so a filter such as `x not in the_list` sees the elements appended so far)
+            recv = self.eval(e.func.value, fr)
+            if isinstance(recv, VRef) and self.st.heap[recv.ref].kind == "list":
+                g = e.args[0].generators[0]
+                src = self.iter_concrete(self.eval(g.iter, fr))
+                sub = Frame(fr.finfo, {}, fr.module, fr.cls)
+                sub.closure = fr
+                for x in src:
+                    self.assign_target(g.target, x, sub)
+                    keep = True
+                    for cnd in g.ifs:
+                        if not self.st.decide(self.truthy(self.eval(cnd, sub))):
+                            keep = False
+                            break
+                    if keep:
+                        self.st.heap[recv.ref].data.append(self.eval(e.args[0].elt, sub))
+                return NONE
         if fr.spec and isinstance(e.func, ast.Name) and e.func.id == "old":
             saved = fr.in_old
             fr.in_old = True
